@@ -1,6 +1,7 @@
 package props
 
 import (
+	"bytes"
 	"fmt"
 	"testing"
 
@@ -60,6 +61,35 @@ func evalC02(c c02Case) (fl *Failure) {
 	m, err := p.Next()
 	if m != nil || err != nil {
 		return failf("c02|tail", "after the last value (chunks %v) the parser returned (%v, %v), want end of stream", c.Sizes, m, err)
+	}
+	return nil
+}
+
+// evalC02Buffer: the stream arrives in a bytes.Buffer that is refilled value by value (Write before every Next);
+// the values returned earlier are compared at the END: what the parser has handed out must not change when the
+// buffer it read from is written to again.
+func evalC02Buffer(c c02Case) (fl *Failure) {
+	defer func() {
+		if rec := recover(); rec != nil {
+			fl = failf("c02|panic", "panic: %v", rec)
+		}
+	}()
+	var buf bytes.Buffer
+	p := proto.NewParserWithReader(&buf)
+	var msgs []*proto.Message
+	for i, v := range c.Values {
+		buf.Write(v.Bytes())
+		m, err := p.Next()
+		if err != nil || m == nil {
+			return failf("c02|buffer|error", "value %d of %d written to a bytes.Buffer: Next() = (%v, %v)", i, len(c.Values), m, err)
+		}
+		msgs = append(msgs, m)
+	}
+	for i, want := range c.Values {
+		got, err := fromMsg(msgs[i])
+		if err != nil || !got.Equal(want) {
+			return failf("c02|buffer|value-changed", "value %d, parsed from a bytes.Buffer that was written to again afterwards, now reads %s (%v), it was sent as %s", i, got, err, want)
+		}
 	}
 	return nil
 }
@@ -147,6 +177,7 @@ func evalC02Server(c c02Server) *Failure {
 func init() {
 	register("c02.stream", evalC02)
 	register("c02.server", evalC02Server)
+	register("c02.buffer", evalC02Buffer)
 }
 
 func TestC02(t *testing.T) {
@@ -275,6 +306,17 @@ func TestC02(t *testing.T) {
 			h.Col.Sample(map[string]any{"mode": "server-path", "payload_lengths": c.Lens, "chunk_sizes": c.Sizes})
 		}
 		h.Fail(rt, "c02.server", c, evalC02Server(c))
+	})
+
+	// a bytes.Buffer refilled value by value; everything is compared at the end
+	h.Rapid("refilled-buffer", h.N(3000, 60000), func(rt *rapid.T) {
+		c := c02Case{}
+		for i, n := 0, rapid.IntRange(2, 8).Draw(rt, "n"); i < n; i++ {
+			c.Values = append(c.Values, resp.GenValue(small).Draw(rt, "v"))
+		}
+		data, _ := resp.EncodeAll(c.Values)
+		h.Col.Case(true, append([]byte("buffer\x00"), data...), "refilled-buffer")
+		h.Fail(rt, "c02.buffer", c, evalC02Buffer(c))
 	})
 
 	// long-lived parsers: many small valid values through ONE parser
